@@ -1,6 +1,8 @@
 --------------------------- MODULE MC_Revocation ---------------------------
 EXTENDS Revocation, Json
 
+CONSTANT Thin      \* exports of the model-checking runs print one state in Thin (deterministic thinning; 1 = all)
+
 (* grant tables: G(a, r) with a = set of <<principal, channel>>, r = set of <<user, role>> *)
 G(a, r) == [acc  |-> [p \in Princ |-> {x[2] : x \in {y \in a : y[1] = p}}],
             racc |-> [u \in Users |-> {x[2] : x \in {y \in r : y[1] = u}}]]
@@ -81,7 +83,8 @@ SimExport == (Len(hist) = MaxSteps /\ out.on /\ out.done) => PrintT(<<"BEH", ToJ
    revoked / removed / deleted row or a grant back-fill row to a client that had pulled before *)
 Interesting(r) == r.id # UserRow /\ (Drop(r) \/ r.tok.t > 0)
 Resumed == \E i \in 1..(Len(hist) - 1) : hist[i].a = "Page"          \* not the client's first request
-NontrivExport == (out.on /\ out.done /\ Resumed /\ \E i \in 1..Len(out.rows) : Interesting(out.rows[i])) => PrintT(<<"BEH", ToJson(hist)>>)
+ThinOK == (seq * 7 + since.s * 3 + since.t + Len(out.rows) + Len(hist)) % Thin = 0
+NontrivExport == (out.on /\ out.done /\ Resumed /\ ThinOK /\ \E i \in 1..Len(out.rows) : Interesting(out.rows[i])) => PrintT(<<"BEH", ToJson(hist)>>)
 (* candidates: behaviours of the model (= transcription of the implemented algorithm) that break the property *)
-CandExport == (out.on /\ ~PropertyHolds) => PrintT(<<"CAND", ToJson(hist)>>)
+CandExport == (out.on /\ ~PropertyHolds /\ (Len(hist) < MaxSteps \/ ThinOK)) => PrintT(<<"CAND", ToJson(hist)>>)
 =============================================================================
